@@ -261,6 +261,120 @@ theorem monitor_flags_d3 :
     (m.step (.svcRetired 0) (obsOf (step false s (.svcRetired 0)).1 (step false s (.svcRetired 0)).2)).2
       = some "C12/state-regression" := by decide
 
+/-! ## the cluster provider may refuse a publication (`App.UpdateNodeState` ignores its error)
+
+`node/app.App.UpdateNodeState` hands each state to `provider.UpdateClusterState` exactly once and
+drops the error: a refused publication is lost for good — not retried, not repeated.  For every
+fault script `sc` of the provider (which of its calls fail): -/
+
+theorem pubRanks_eq_map (es : List Evt) : pubRanks es = (Cell2v.Spec.C12.pubsOf es).map NS.rank := by
+  induction es with
+  | nil => rfl
+  | cons e es ih => cases e <;> simp_all [pubRanks, Cell2v.Spec.C12.pubsOf]
+
+/-- **cluster_view_monotone**: whatever the provider refuses, the sequence of states the cluster
+is actually shown — preceded by the initial `working` — only ever moves forward. -/
+theorem cluster_view_monotone (sc : List Bool) (kinds : List Kind) (ops : List Op) (mode : StopMode) :
+    List.Pairwise (· ≤ ·) (NS.working.rank :: (clusterView sc (exec true kinds ops mode).2).map NS.rank) := by
+  have h := state_monotone kinds ops mode
+  rw [pubRanks_eq_map] at h
+  refine List.Pairwise.sublist ?_ h
+  exact List.cons_sublist_cons.mpr ((Cell2v.Spec.C12.delivered_sublist sc _).map _)
+
+/-- **provider_called_once_per_update**: every state change of the node reaches the provider
+exactly once — it is either shown to the cluster or refused; both are order-preserving selections
+of the node's own sequence (no retry, no repetition, no invention). -/
+theorem provider_called_once_per_update (sc : List Bool) (kinds : List Kind) (ops : List Op) (mode : StopMode) :
+    (clusterView sc (exec true kinds ops mode).2).length +
+        (lostOf sc (Cell2v.Spec.C12.pubsOf (exec true kinds ops mode).2)).length =
+      (Cell2v.Spec.C12.pubsOf (exec true kinds ops mode).2).length ∧
+    (clusterView sc (exec true kinds ops mode).2).Sublist (Cell2v.Spec.C12.pubsOf (exec true kinds ops mode).2) ∧
+    (lostOf sc (Cell2v.Spec.C12.pubsOf (exec true kinds ops mode).2)).Sublist
+      (Cell2v.Spec.C12.pubsOf (exec true kinds ops mode).2) :=
+  ⟨Cell2v.Spec.C12.delivered_length_add_lost sc _, Cell2v.Spec.C12.delivered_sublist sc _,
+    Cell2v.Spec.C12.lostOf_sublist sc _⟩
+
+/-- a provider that never fails shows the cluster exactly the node's own sequence -/
+theorem reliable_provider_sees_all (es : List Evt) : clusterView [] es = Cell2v.Spec.C12.pubsOf es :=
+  Cell2v.Spec.C12.delivered_nil_script _
+
+/-- the provider's view of a whole case is the concatenation of its views of the parts, the
+script advanced by the number of publications (what the driver and `traceOfL` thread step by step) -/
+theorem cluster_view_append (sc : List Bool) (a b : List Evt) :
+    clusterView sc (a ++ b) =
+      clusterView sc a ++ clusterView (scriptAfter sc (Cell2v.Spec.C12.pubsOf a).length) b := by
+  have := Cell2v.Spec.C12.delivered_append sc (Cell2v.Spec.C12.pubsOf a) (Cell2v.Spec.C12.pubsOf b)
+  show delivered sc (Cell2v.Spec.C12.pubsOf (a ++ b)) = _
+  rw [Cell2v.Spec.C12.pubsOf_append]
+  exact this
+
+/-- non-vacuity: the provider refuses `retiring`; the cluster sees retired, exiting, exited -/
+example : clusterView [true]
+    (exec true [.raw] [.qack 0 true, .cmd .retire, .svcRetired 0, .cmd .exit, .stopDone true]).2
+    = [.retired, .exiting, .exited] := by decide
+
+open Cell2v.Spec.C12 in
+/-- **model_passes_monitor_lossy**: the monitor never flags the observable trace of the model
+when the cluster provider refuses publications according to any fault script (the refused ones
+are observed as `lost`), for every service set and every history. -/
+theorem model_passes_monitor_lossy (sc : List Bool) (kinds : List Kind) (ops : List Op) (mode : StopMode) :
+    monitorCase kinds (inlineOf mode) (obsOf (boot true kinds mode).1 (boot true kinds mode).2)
+      (traceOfL sc (boot true kinds mode).1 ops) = none := by
+  obtain ⟨h1, h2⟩ := reset_ok kinds mode
+  simp only [monitorCase, h1]
+  exact runAll_noneL sc ops (RInv.exec kinds [] mode) h2
+
+open Cell2v.Spec.C12 in
+/-- the sequence clause is the old `pubs = upd` whenever nothing was refused (the monitor was widened, not loosened) -/
+theorem monitor_sequence_clause_no_loss (u p : List NS) : isMerge u p [] = true ↔ p = u := isMerge_no_loss u p
+
+open Cell2v.Spec.C12 in
+/-- the monitor is not vacuous there: a refused `retiring` that is published again later (a
+retry carrying the stale state), when the node is already retired, is a state regression -/
+theorem monitor_flags_stale_retry :
+    let m : Mon := { Mon.init 1 [0] with reported := [0], cur := .retired }
+    (m.step .tick { reply := none, pubs := [.retiring], upd := [], stops := 0, sent := [], st := .retired }).2
+      = some "C12/state-regression" := by decide
+
+/-! ## a failed stop is final; `retired` does not need `retire` (review notes) -/
+
+/-- once the node is `exiting` with no StopNode completion outstanding (the stop failed, or its
+callback was dropped), nothing moves it any more: in particular `exit` is refused for ever and
+StopNode is never called a second time (`stop_at_most_once`) — a failed stop cannot be retried. -/
+theorem failed_stop_is_final (s : St) (ops : List Op) (h : s.st = .exiting) (hp : s.stopPend = 0) :
+    (run true s ops).1.st = .exiting ∧ (run true s ops).1.stopPend = 0 := by
+  induction ops generalizing s with
+  | nil => exact ⟨h, hp⟩
+  | cons o os ih =>
+    have hs : (step true s o).1.st = .exiting ∧ (step true s o).1.stopPend = 0 := by
+      obtain ⟨st, kinds, qpend, support, retired, allSup, stopPend, stopMode, unres⟩ := s
+      simp only at h hp
+      subst h hp
+      cases o with
+      | cmd c => cases c <;> simp [step, retireCmd, exitCmd, webRetireCmd, webExitCmd]
+      | qack i ok => simp only [step, queryAck]; (repeat' split) <;> simp
+      | svcRetired i => simp only [step, serviceRetired]; (repeat' split) <;> simp_all
+      | svcOther i => simp [step]
+      | stopDone b => simp [step, stopDone]
+      | tick => simp [step]
+      | setRes i up => simp [step]
+    simp only [run]
+    exact ih _ hs.1 hs.2
+
+/-- non-vacuity: reachable — the application completes the stop with `false` -/
+example : (exec true [.raw] [.qack 0 true, .cmd .retire, .svcRetired 0, .cmd .exit, .stopDone false]).1.st = .exiting ∧
+    (exec true [.raw] [.qack 0 true, .cmd .retire, .svcRetired 0, .cmd .exit, .stopDone false]).1.stopPend = 0 := by
+  decide
+
+/-- the route to `exit` does not pass through an accepted `retire`: a node whose only service
+refused retirement support becomes `retired` as soon as that service says `retired` (from
+`working`, nodectrl.go onServiceRetired), and `exit` is then accepted.  The statement of C12 allows
+it ("accepts exit only when retired"); its title does not. -/
+theorem exit_without_retire :
+    (exec true [.nodeNo] [.svcRetired 0]).1.st = .retired ∧
+    Evt.reply .ok ∈ (step true (exec true [.nodeNo] [.svcRetired 0]).1 (.cmd .exit)).2 ∧
+    Evt.reply .ok ∉ (step true (exec true [.nodeNo] []).1 (.cmd .retire)).2 := by decide
+
 /-! ## non-vacuity: the hypotheses above are met by real histories -/
 
 /-- one scripted and one NodeService-kind service, both supporting: retire is accepted -/
